@@ -1,11 +1,13 @@
 SPECIFICATION MCSpec
-CONSTANTS Key = {"a1", "s1"}
+CONSTANTS Key = {"a1", "a2", "s1"}
           MaxVal = 1
           MaxObjs = 3
           Readers = {1}
-          AsyncModes = {TRUE, FALSE}
+          AsyncModes = {TRUE}
           RelinkSiblings = TRUE
           Depth = 0
+          MaxDiffKeys = 1
+          SlotKeys = {"s1"}
           MaxReads = 1
 INVARIANTS TypeOK LiveReadable ReadCorrect NoSpuriousStale LookupSound DescendantsExact Rooted DiskContent DiskAligned ChainsSound
 VIEW View
